@@ -114,7 +114,7 @@ func runC02(cfg *vh.Config) error {
 		Type:   "c02case",
 		Check:  "c02_check",
 	}
-	n := cfg.Scale(250, 3000)
+	n := cfg.Scale(250, 2400)
 	distinct := vh.Distinct{}
 	const perShard = 40
 	stats := map[string]int{}
@@ -179,7 +179,7 @@ func runC02(cfg *vh.Config) error {
 	}
 	// ---- malformed stream: a valid bundle broken in one place must be rejected, by the compiler
 	// (with an error, not a panic) and by the model
-	nBad := cfg.Scale(60, 600)
+	nBad := cfg.Scale(60, 500)
 	for i := 0; i < nBad; i++ {
 		r := cfg.R.Fork(fmt.Sprintf("c02-bad-%d", i))
 		gcfg := j5sgen.DefaultConfig()
